@@ -113,4 +113,23 @@ def encode : Geom F → Except Err (List Char)
   | .nil => .error .unsupported
 
 end
+
+/-- Go's `reflect.TypeOf(g).String()` for the geometry types of package geom (the `Type` field of the
+`UnsupportedGeometryError` that `Encode`'s default arm builds) -/
+def goTypeName {F : Type} : Geom F → String
+  | .point _ => "geom.Point" | .multiPoint _ => "geom.MultiPoint" | .lineString _ => "geom.LineString"
+  | .multiLineString _ => "geom.MultiLineString" | .polygon _ => "geom.Polygon"
+  | .multiPolygon _ => "geom.MultiPolygon" | .collection _ => "geom.GeometryCollection"
+  | .bounds _ _ => "*geom.Bounds" | .nil => "nil"
+
+/-- `UnsupportedGeometryError.Error()` (wkt.go): `"wkt: unsupported geometry type: " + e.Type.String()` -/
+def errorText (typeName : String) : String := "wkt: unsupported geometry type: " ++ typeName
+
+/-- what `Encode` reports for `g` besides the bytes: `none` = no error, `some t` = an
+`*UnsupportedGeometryError` whose `Type` prints as `t` -/
+def encodeErrType {F : Type} (g : Geom F) : Option String :=
+  match g with
+  | .point _ | .lineString _ | .multiLineString _ | .polygon _ | .multiPolygon _ => none
+  | g => some (goTypeName g)
+
 end GeomV.C17
